@@ -88,7 +88,7 @@ def c13(ctx):
 
 
 def c20_pure(ctx):
-    return _results(ctx, ("util",), ["UT-PURE"], min_sites=5, min_entries=16)
+    return _results(ctx, ("util",), ["UT-PURE"], min_sites=2, min_entries=16)
 
 
 register(
